@@ -44,3 +44,21 @@ Theorem C11_a_derived_pattern_embeds :
   forall t i m, Der rho t i m -> forall meta, Emb meta i t m /\ syms_ok rho m.
 Proof. exact der_emb. Qed.
 Print Assumptions C11_a_derived_pattern_embeds.
+
+(* the property's last sentence, for ANY matching pattern (not only one derived from the program): replacing
+   sub-trees by ___ / __n__ names in the same parent field and dropping children, at any positions and depths
+   (Gen), keeps an embedding - with no new symbol bindings *)
+From Pedal Require Import proof.C11_Gen.
+
+Theorem C11_generalising_a_matching_pattern_keeps_the_match :
+  forall meta p s m, Emb meta p s m ->
+  forall p', Gen p p' -> exists m', Emb meta p' s m' /\ incl (syms m') (syms m).
+Proof. exact generalising_keeps_the_match. Qed.
+Print Assumptions C11_generalising_a_matching_pattern_keeps_the_match.
+
+Theorem C11_generalised_pattern_still_matches :
+  forall pattern pattern' student m,
+  In m (find_matches pattern student) -> Gen (trim_root pattern) (trim_root pattern') ->
+  exists m', In m' (find_matches pattern' student).
+Proof. exact generalised_pattern_still_matches. Qed.
+Print Assumptions C11_generalised_pattern_still_matches.
